@@ -44,6 +44,18 @@ ZStep(st, e, t) ==
              ELSE IF e.result # "TypeError" THEN Bad(st, "unsupported operation mode was not refused")
                   ELSE IF e.writes # <<>> THEN Bad(st, "unsupported operation mode was written to the drive")
                   ELSE Good(st)
+      [] e.e = "opmode_pdo" ->
+           \* the drive logged the mode byte of every RPDO it received during the request and the
+           \* following state change: an unsupported mode must never reach the drive
+           IF Supported(e.mask, e.mode)
+             THEN IF e.result # "ok" THEN Bad(st, "supported operation mode was refused")
+                  ELSE IF e.seen = <<>> \/ \E i \in 1..Len(e.seen) : e.seen[i] # ModeCode(e.mode)
+                    THEN Bad(st, "operation mode not written as its CiA 402 mode code")
+                  ELSE Good(st)
+             ELSE IF e.result # "TypeError" THEN Bad(st, "unsupported operation mode was not refused")
+                  ELSE IF \E i \in 1..Len(e.seen) : e.seen[i] # e.prev
+                    THEN Bad(st, "unsupported operation mode was written to the drive")
+                  ELSE Good(st)
       [] OTHER -> Bad(st, "unknown event")
 TraceFile == JsonDeserialize(IOEnv.TRACE_FILE)
 VARIABLES tid, l, st
